@@ -124,6 +124,15 @@ c16!(c16_tl06_read_size9, 13, read_instr_never_panics::<9>(&TimelineFormat06, 6,
 //@ C16 c16_tl08_read_size9 quick default ECL timeline (TH08+): read_instr on arbitrary header bytes whose size field is 9 (one more than the header) returns Ok or Err and never panics (no underflow, no failed assert, no out-of-range read)
 c16!(c16_tl08_read_size9, 13, read_instr_never_panics::<9>(&TimelineFormat08, 6, 1, 9));
 
+//@ C16 c16_ecl06_read_any16 quick default ECL (TH06-095): read_instr on 16 ARBITRARY bytes (size field symbolic too: every value, including sizes beyond the buffer, which end in an end-of-file error) returns Ok or Err and never panics
+c16!(c16_ecl06_read_any16, 20, read_instr_never_panics::<16>(&OldeEclHooks { game: Game::Th07 }, 0, 0, 0));
+//@ C16 c16_ecl06th06_read_any16 quick default ECL (EoSD): read_instr on 16 ARBITRARY bytes (size field symbolic too: every value, including sizes beyond the buffer, which end in an end-of-file error) returns Ok or Err and never panics
+c16!(c16_ecl06th06_read_any16, 20, read_instr_never_panics::<16>(&OldeEclHooks { game: Game::Th06 }, 0, 0, 0));
+//@ C16 c16_tl06_read_any12 quick default ECL timeline (TH06-07): read_instr on 12 ARBITRARY bytes (size field symbolic too: every value, including sizes beyond the buffer, which end in an end-of-file error) returns Ok or Err and never panics
+c16!(c16_tl06_read_any12, 16, read_instr_never_panics::<12>(&TimelineFormat06, 0, 0, 0));
+//@ C16 c16_tl08_read_any12 quick default ECL timeline (TH08+): read_instr on 12 ARBITRARY bytes (size field symbolic too: every value, including sizes beyond the buffer, which end in an end-of-file error) returns Ok or Err and never panics
+c16!(c16_tl08_read_any12, 16, read_instr_never_panics::<12>(&TimelineFormat08, 0, 0, 0));
+
 #[cfg(kani)]
 #[path = "/verif/.cache/playback/ecl_06.rs"]
 mod playback;
